@@ -728,11 +728,18 @@ class AsyncFIXConnection:
         }
 
         for enc_msg in journal_replay_msgs:
-            replay_msg, _, _ = self._codec.decode(enc_msg, silent=False)
-            msg_seq_num = int(replay_msg[FTag.MsgSeqNum])
+            msg_seq_num = int(Journaler.find_seq_no(enc_msg))
+            msg_type = enc_msg.partition(b"\x0135=")[2].partition(b"\x01")[0].decode()
 
-            is_sess_msg = replay_msg[FTag.MsgType] in noreply_msgs
-            if is_sess_msg or not await self.should_replay(replay_msg):
+            is_sess_msg = msg_type in noreply_msgs
+            replay_msg = None
+            if not is_sess_msg:
+                # decoded for the application's filter only: what is sent again
+                #  is made from the journaled bytes
+                replay_msg, _, _ = self._codec.decode(enc_msg)
+            if is_sess_msg or (
+                replay_msg is not None and not await self.should_replay(replay_msg)
+            ):
                 gap_fill_end = msg_seq_num + 1
             else:
                 # everything before this message that is not replayed is skipped,
@@ -747,20 +754,19 @@ class AsyncFIXConnection:
                     # breakpoint()
                     await self.send_msg(gap_fill_msg)
 
-                # and then resent the replayMsg
-                # (the original may carry an explicit PossDupFlag=N)
-                replay_msg.set(FTag.PossDupFlag, "Y", replace=True)
-                replay_msg.set(
-                    FTag.OrigSendingTime, replay_msg[FTag.SendingTime], replace=True
+                # and then resent the replayMsg: the journaled frame with
+                #  PossDupFlag=Y / OrigSendingTime (a message that cannot be decoded
+                #  and encoded again - a repeating group the protocol table does not
+                #  list, a non-ASCII value - is retransmitted like any other)
+                if self._connection_state <= ConnectionState.DISCONNECTED_BROKEN_CONN:
+                    raise FIXConnectionError("Connection lost while resending")
+                retransmission = self._codec.retransmission(enc_msg)
+                self.log.debug(
+                    f"[{self._connection_role.name}]:resend"
+                    f" {retransmission.replace(bytes([1]), b'|')}"
                 )
-                del replay_msg[FTag.MsgType]
-                del replay_msg[FTag.BeginString]
-                del replay_msg[FTag.BodyLength]
-                del replay_msg[FTag.SendingTime]
-                del replay_msg[FTag.SenderCompID]
-                del replay_msg[FTag.TargetCompID]
-                del replay_msg[FTag.CheckSum]
-                await self.send_msg(replay_msg)
+                self._socket_writer.write(retransmission)
+                await self._socket_writer.drain()
 
                 gap_fill_begin = msg_seq_num + 1
 
